@@ -406,6 +406,18 @@ M.append({"id": "c04-default-in-inner-scope", "prop": "C04",
 """})
 
 
+M.append({"id": "c02-shared-arg-stack", "prop": "C02",
+          "what": "every simplify_chained_calls object uses one module-level argument stack (balanced, so any sequential use is correct; two threads simplifying at once see each other's bindings)",
+          "file": "func_adl/ast/function_simplifier.py",
+          "old": "        self._arg_stack = argument_stack()\n        self._visit_depth = 0",
+          "new": "        self._arg_stack = globals().setdefault(\"_SHARED_STACK\", argument_stack())\n        self._visit_depth = 0"})
+M.append({"id": "c20-shared-scratch", "prop": "C20",
+          "what": "calc_ast_hash builds the text in a module-level list that is emptied at the start of every call (exact for one thread; two threads hashing at once mix their texts)",
+          "file": "func_adl/ast/ast_hash.py",
+          "old": "    return hashlib.md5(ast.dump(a).encode(\"utf-8\")).hexdigest()",
+          "new": "    del _PARTS[:]\n    for piece in ast.dump(a).split(\"(\"):\n        _PARTS.append(piece)\n    return hashlib.md5(\"(\".join(_PARTS).encode(\"utf-8\")).hexdigest()\n\n\n_PARTS = []"})
+
+
 def main():
     args = [a for a in sys.argv[1:] if not a.startswith("--")]
     tests = "--no-tests" not in sys.argv
